@@ -50,8 +50,21 @@ fn conv_sets() -> Vec<ConvSet> {
     } else {
         ctx().note("units/spanish.toml could not be loaded as a layer over the bundled units; the renamed-units converter is not part of this run");
     }
+    // minutes renamed so that none of the spellings the implementation looks for is a time unit
+    let renamed = toml::from_str::<UnitsFile>("[extend]\nprecedence = \"override\"\n[extend.units]\nmin = { names = [\"minuto\", \"minutos\"], symbols = [\"mn\"], aliases = [] }\n[[quantity]]\nquantity = \"time\"\nbest = [\"s\", \"h\", \"mn\", \"d\"]\n")
+        .ok()
+        .and_then(|f| ConverterBuilder::new().with_units_file(UnitsFile::bundled()).ok()?.with_units_file(f).ok()?.finish().ok());
+    match renamed {
+        Some(r) => list.push(("bundled with minutes renamed", r)),
+        None => ctx().note("the converter with renamed minutes could not be built; it is not part of this run"),
+    }
     for (name, conv) in list {
         let mut time_units = Vec::new();
+        if name == "bundled with minutes renamed" {
+            // no unit spelling is expected to be accepted here; only numbers, compact forms and rejections are generated
+            v.push(ConvSet { name, conv, time_units });
+            continue;
+        }
         if conv.unit_count() == 0 {
             for (k, s) in [("s", 1), ("sec", 1), ("secs", 1), ("second", 1), ("seconds", 1), ("m", 60), ("min", 60), ("minute", 60), ("minutes", 60), ("h", 3600), ("hour", 3600), ("hours", 3600), ("d", 86400), ("day", 86400), ("days", 86400)] {
                 time_units.push((k.to_string(), s as u128));
@@ -130,6 +143,10 @@ fn duration_cases(set: &ConvSet) -> Vec<Case> {
                 }
             }
         }
+    }
+    // quantities in units that are known but are not time
+    for bad in ["5 km", "2 tsp", "3 kg", "1 l", "1h 5 kg", "2 cups 3 min"] {
+        forms.push((bad.to_string(), Expect::Rejected));
     }
     for bad in ["abc", "1 parsec", "1h 30", "h", "1.5.2 min", "-5", "-0.4", "NaN", "inf", "-inf", "1hh", "min 5", "5 min 3", "1e99", "4294967295.6", "1h-5m"] {
         forms.push((bad.to_string(), Expect::Rejected));
